@@ -1,8 +1,51 @@
 """C04 - rational arithmetic is exact and RBig stays in lowest terms."""
 from fractions import Fraction
 
+import os
+import sys
+
 import core
 from core import hx, gen_int, gen_mag, gen_words_len
+
+# The straight-line bodies of rational/src/{repr,rbig,add,mul,div}.rs (every macro body, once per
+# impl_binop_with_macro! / impl_binop_with_int! invocation, so the wiring too) are regenerated into
+# coq/gen/RatioBodies.v when this plug-in is imported, i.e. before the proof phase of every run (tools/check.py has
+# no hook between plug-in load and the Coq build; tools/translate.py is shared and not ours to edit).  The C04_gen_*
+# theorems are stated over the generated definitions.  Unparseable source is not an alarm: the last good copy stays
+# (marked STALE), the status is reported in the evidence by extra_phase, the correspondence run alone ties the model.
+sys.path.insert(0, os.path.join(core.ROOT, "tools"))
+try:
+    import translate_c04_r3
+    BODIES_STATUS = translate_c04_r3.generate(core.REPO, os.path.join(core.COQ, "gen"))
+except Exception as _ex:  # the generator itself broke: same fallback as an unparseable source
+    BODIES_STATUS = "unparsed generator-failed: %s" % str(_ex)[:200]
+
+# a run against a scratch checkout (VERIF_REPO) must not leave that checkout's bodies in a shared tree
+if os.path.realpath(core.REPO) != os.path.realpath("/repo") and os.path.realpath(core.COQ) == os.path.realpath(os.path.join(core.ROOT, "coq")):
+    import atexit
+
+    def _restore_bodies():
+        try:
+            translate_c04_r3.generate("/repo", os.path.join(core.COQ, "gen"))
+        except Exception:
+            pass
+
+    atexit.register(_restore_bodies)
+
+
+def extra_phase(tier, seed, exes, oracle):
+    word = BODIES_STATUS.split(" ", 1)[0]
+    return {
+        "evaluations": 0,
+        "hist": {"translator_c04_r3:RatioBodies:" + word: 1},
+        "nontrivial": [],
+        "samples": [{"fragment": "coq/gen/RatioBodies.v (tools/translate_c04_r3.py from rational/src/{repr,rbig,add,mul,div}.rs, lib.rs)",
+                     "status": BODIES_STATUS,
+                     "tied_by": "C04_gen_* theorems (stated over the generated definitions)" if word == "ok"
+                     else "correspondence run only (source not parsed; committed copy marked STALE)"}],
+        "failures": [],
+    }
+
 
 ID = "C04"
 READY = True
@@ -303,6 +346,34 @@ def const_pair(rng):
     return rng.bits(rng.choice([64, 65, 127, 128])), rng.bits(rng.choice([64, 65, 127, 128]))
 
 
+def fbits(rng, single):
+    """bit pattern of an f32 / f64: every class (zero, subnormal, normal, integer-valued, huge, inf, nan), both signs"""
+    mb, eb = (23, 8) if single else (52, 11)
+    bias = (1 << (eb - 1)) - 1
+    k = rng.below(12)
+    if k == 0:
+        ex, fr = 0, 0
+    elif k == 1:
+        ex, fr = 0, rng.choice([1, 2, 3, 1 << (mb - 1), (1 << mb) - 1, rng.bits(mb)])           # subnormal
+    elif k == 2:
+        ex, fr = (1 << eb) - 1, rng.choice([0, 0, 1, rng.bits(mb)])                              # inf / nan
+    elif k == 3:
+        ex, fr = rng.choice([1, 2, (1 << eb) - 2]), rng.choice([0, 1, (1 << mb) - 1, rng.bits(mb)])  # smallest / largest normal
+    elif k < 7:
+        # around the integer / fraction border: exponent e = ex - bias - mb near 0, trailing zeros in the mantissa
+        ex = bias + mb + rng.range(-mb - 3, 4)
+        fr = rng.bits(mb)
+        if rng.chance(1, 2):
+            z = rng.range(1, mb)
+            fr = (fr >> z) << z
+    elif k == 7:
+        ex, fr = bias + rng.range(-5, 5), 0                                                       # powers of two
+    else:
+        ex, fr = rng.range(0, (1 << eb) - 1), rng.bits(mb)
+    sg = rng.below(2)
+    return (sg << (mb + eb)) | (max(0, min(ex, (1 << eb) - 1)) << mb) | (fr & ((1 << mb) - 1))
+
+
 def gen_cases(rng, tier, n):
     out = []
     while len(out) < n:
@@ -329,7 +400,7 @@ def gen_cases(rng, tier, n):
             out.append("%s%s %s %s %s %s %s" % (T, op, rng.choice(FORMS4), ty, hx(a), hx(b), hx(i)))
         elif k < 66:
             a, b = grat(rng, tier)
-            op = rng.choice(["neg", "inv", "abs", "signum", "sqr", "cubic", "mulsign", "fract", "split", "trunc", "floor", "ceil", "round"])
+            op = rng.choice(["neg", "inv", "abs", "signum", "sqr", "cubic", "mulsign", "fract", "split", "trunc", "floor", "ceil", "round", "preds"])
             if op in ("neg", "inv"):
                 out.append("%s%s %s %s %s" % (T, op, rng.choice(["v", "r"]), hx(a), hx(b)))
             elif op == "mulsign":
@@ -337,6 +408,14 @@ def gen_cases(rng, tier, n):
             else:
                 if op in ("round", "fract", "split") and rng.chance(1, 3):
                     a, b = gtie(rng, tier)[:2]
+                if op == "preds":
+                    r = rng.below(6)
+                    if r == 0:
+                        a = b                          # the value one, stored n/n by Relaxed only through reduce2
+                    elif r == 1:
+                        a = b * gnum(rng, tier)        # integer-valued
+                    elif r == 2:
+                        a = 0
                 out.append("%s%s %s %s" % (T, op, hx(a), hx(b)))
         elif k < 70:
             a, b = grat(rng, tier)
@@ -354,7 +433,10 @@ def gen_cases(rng, tier, n):
             op = rng.choice(["from_parts", "from_parts", "from_parts_signed"])
             if op == "from_parts_signed" and rng.chance(1, 2):
                 d_ = -d_
-            if op == "from_parts" and T == "x" and rng.chance(1, 3):
+            if rng.chance(1, 4):
+                single = rng.chance(1, 2)
+                out.append("%sfromf%s %x" % (T, "32" if single else "64", fbits(rng, single)))
+            elif op == "from_parts" and T == "x" and rng.chance(1, 3):
                 out.append("xcanon %s %s" % (hx(n_), hx(d_)))
             elif op == "from_parts" and T == "r" and rng.chance(1, 4):
                 out.append("rrelax %s %s" % (hx(n_), hx(d_)))
